@@ -1457,13 +1457,22 @@ def endp_gen():
     return {"cloops:" + k: v for k, v in status.items()}
 
 
+# which translated functions each obligation module mentions: a module is built only when all of them came out
+ENDP_NEEDS = {
+    "Ufw.Tie.EndpFns.SinkAdapt": ["sink_adapt"],
+    "Ufw.Tie.EndpFns.SourceAdapt": ["source_adapt"],
+    "Ufw.Tie.EndpFns.SinkPutChunk": ["sink_adapt", "once_sink_put_chunk", "sink_put_chunk", "sink_put_chunk_atmost"],
+    "Ufw.Tie.EndpFns.SourceGetChunk": ["source_adapt", "sink_adapt", "once_sink_put_chunk", "sink_put_chunk", "sink_put_chunk_atmost",
+                                       "once_source_get_chunk", "source_get_chunk", "source_get_chunk_atmost"],
+}
+ENDP_NEEDS["Ufw.Tie.EndpFns.StsCbc"] = ENDP_NEEDS["Ufw.Tie.EndpFns.SourceGetChunk"] + ["source_get_octet", "sink_put_octet", "sts_cbc"]
+ENDP_NEEDS["Ufw.Tie.EndpFns.StsLoops"] = ENDP_NEEDS["Ufw.Tie.EndpFns.StsCbc"] + ["sts_drain_cbc", "sts_n_cbc"]
+ENDP_NEEDS["Ufw.Tie.EndpFns.EndToEnd"] = ENDP_NEEDS["Ufw.Tie.EndpFns.SourceGetChunk"]
+
+
 def endp_tie_modules():
-    # StsLoops holds the obligations of sts_drain_cbc and sts_n_cbc: both have to be there
     ok = lambda f: ENDP_STATUS.get(f) == "translated"
-    mods = ["Ufw.Tie.EndpFns.Common"] + [m for f, m in ENDP_TIE.items() if ok(f) and (f != "sts_drain_cbc" or ok("sts_n_cbc"))]
-    if ok("sink_put_chunk") and ok("source_get_chunk"):
-        mods.append("Ufw.Tie.EndpFns.EndToEnd")       # the exactness theorems of the property, over the translated C
-    return mods
+    return ["Ufw.Tie.EndpFns.Common"] + [m for m, fs in ENDP_NEEDS.items() if all(ok(f) for f in fs)]
 
 
 if __name__ == "__main__":
